@@ -64,6 +64,11 @@ def run_case(case):
         got = b"".join(b for a, b in res["blocks"])
         if res["blocks"] and res["blocks"][0][0] != off0:
             return f"first block at {res['blocks'][0][0]:#x}, expected {off0:#x}"
+        pos = off0
+        for a, b in res["blocks"]:
+            if a != pos:
+                return f"a block of {len(b)} bytes is written at {a:#x}, the bytes before it end at {pos:#x} (no `*=` in this program: the output is one contiguous run)"
+            pos += len(b)
         if got != expected:
             n = next((i for i, (x, y) in enumerate(zip(got, expected)) if x != y), min(len(got), len(expected)))
             return f"bytes differ at {n}: got {got[n:n+8].hex()} expected {expected[n:n+8].hex()} (lengths {len(got)}/{len(expected)})"
@@ -111,6 +116,10 @@ def run(tier, seed):
                         ["dl", {"values": [3, -1], "text": "(1 + 2), -1"}]], "start": 0x008000},
              # texts that look like something else to a helper shared with path directives: home-directory / environment / glob / escape syntax
              {"stmts": [["incbin", {"len": 5, "seed": 3}], ["db", {"values": [0xAA], "text": "0xAA"}], ["incbin", {"same_as": 0}], ["incbin", {"len": 0, "seed": 0}], ["incbin", {"same_as": 0}]], "start": 0x008000},
+             # one contiguous run of more than 64 KiB in which a multi-byte statement straddles the 0xFFFF-th byte
+             {"stmts": [["db", {"values": [1], "text": "1"}], ["incbin", {"len": 0x12345, "seed": 5}], ["dw", {"values": [0x1234], "text": "0x1234"}]], "start": 0x008000},
+             {"stmts": [["db", {"values": [1], "text": "1"}], ["dl", {"values": [0x10000 + k for k in range(0x5560)], "text": ",".join(hex(0x10000 + k) for k in range(0x5560))}], ["db", {"values": [2], "text": "2"}]],
+              "start": 0x008000},
              # long lists (tables of a thousand and more entries are ordinary): every value, in order
              {"stmts": [["db", {"values": [k & 0xFF for k in range(1500)], "text": ", ".join(str(k & 0xFF) for k in range(1500))}],
                         ["dw", {"values": [0x1000 + k for k in range(1100)], "text": ",".join(hex(0x1000 + k) for k in range(1100))}]], "start": 0x008000},
